@@ -29,7 +29,7 @@ class StepPrims:
         self.ctx = ctx
         self.hooks = hooks
         self.hp = P.HandlerPrims(facts, ctx.roles)
-        self.decode_next = facts.method(AXE, "decode_next")["path"]
+        self.decode_next = ctx.roles.decoders()[0]
         self.dispatch = ctx.dispatch.top["path"]
         self.mnemonic_hooks = facts.method(AXE, "mnemonic_hooks")["path"]
         self.run_before = self._one_in("state::hooks::Hook", "run_before")
@@ -103,11 +103,20 @@ class StepPrims:
         return self.hp.intercept(I, path, frame, t, name, args)
 
 
+def _readonly_helper(b):
+    """a small private `&self` method of the machine (e.g. an extracted precondition check): interpreted inline; the
+    roles (decoder, dispatch, hook runners, accessors, renderers) are intercepted before inlining is considered"""
+    if b.get("impl_self") != AXE or b["kind"] == "Closure" or b.get("coroutine") or b["argc"] < 1:
+        return False
+    l1 = b["locals"][1]
+    return isinstance(l1, list) and l1[0] == "ref" and not l1[1] and len(b["blocks"]) <= 80 and b["vis"] != "pub"
+
+
 def run_step(ctx, hooks=True, assume=None, order=None, cmp_oracle=None):
     facts = ctx.facts
     body = step_body(facts)
     sp = StepPrims(ctx, hooks=hooks)
-    I = A.Interp(facts, intercept=sp.intercept, may_inline=lambda n, b: (b["kind"] == "Closure" and not b.get("coroutine")) or (b.get("impl_trait") or "").startswith("std::convert::From<"),
+    I = A.Interp(facts, intercept=sp.intercept, may_inline=lambda n, b: (b["kind"] == "Closure" and not b.get("coroutine")) or (b.get("impl_trait") or "").startswith("std::convert::From<") or _readonly_helper(b),
                  max_paths=400000)
     if cmp_oracle is not None:
         I.cmp_oracle = cmp_oracle
